@@ -159,7 +159,7 @@ theorem C09.lipschitz_sound (μ : E → E → E) (cv : Builtin ℝ → E → ℝ
       simpa [Fn.grad, eOps, two, one_add_one_eq_two] using this
   | prod f g _ _ => simp [Fn.lip, Lip.eval] at h
   | quot f g _ _ => simp [Fn.lip, Lip.eval] at h
-  | comp f op dAdj _ => simp [Fn.lip, Lip.eval] at h
+  | comp f op dAdj opLin _ => simp [Fn.lip, Lip.eval] at h
   | breg f p q ih =>
       obtain ⟨La, Lb, hLa, hLb, rfl⟩ := Lip.eval_add h
       simp [Lip.norm, Lip.eval, rootsVal] at hLb
@@ -234,7 +234,7 @@ def WF (o : VecOps E ℝ) : Fn E ℝ → E → Prop
   | .qp f _ _ _ _, x => WF o f x
   | .prod f g, x => WF o f x ∧ WF o g x
   | .quot f g, x => WF o f x ∧ WF o g x ∧ g.value o x ≠ 0
-  | .comp f op dAdj, x =>
+  | .comp f op dAdj _, x =>
       (∃ D : E →L[ℝ] E, HasFDerivAt op D x ∧ ∀ y, dAdj x y = ContinuousLinearMap.adjoint D y) ∧
         WF o f (op x)
   | .breg f _ _, x => WF o f x
@@ -361,7 +361,7 @@ theorem C09.grad_sound (μ : E → E → E) (cv : Builtin ℝ → E → ℝ) (cd
       simp [Fn.grad, eOps, inner_add_left, inner_smul_left]
       field_simp
       ring
-  | comp f op dAdj ih =>
+  | comp f op dAdj opLin ih =>
       obtain ⟨⟨D, hD, hadj⟩, hf⟩ := h
       have h1 := (ih _ hf).hasFDerivAt
       have := HasFDerivAt.comp x h1 hD
